@@ -76,6 +76,7 @@ def check(ctx):
     ctx.rule("R3", "each registered converter is paired with its confirmed detyper (and validator family) in the Var registry and ENSURERS", floor=25)
     ctx.rule("R4", "detype stores a string for a variable only past the three skips: DELETE_VAR mask, no detyper, None result", floor=3)
     ctx.rule("R5", "the child's environment is computed inside the per-command swap, at launch time", floor=2)
+    ctx.rule("R10", "a scoped override that ends never unsets a variable that was set before it began: the restore step deletes a key only for the 'absent before' marker, and the capture step hands out that marker only on evidence that the key was absent from every layer (deleting also removes the variable from the os.environ mirror and from later children)", floor=2)
     ctx.rule("R9", "which validator / converter / detyper a name gets is computed from the live registry and the live pattern rules on every call: the lookup methods keep no memo on the Env (pattern rules are edited in place: `$XONSH_ENV_PATTERN_DIRS.exclude.append(..)`)", floor=4)
     ctx.rule("R8", "the memoised mapping itself never leaves detype(): every return is a fresh mapping (callers edit what they get)", floor=2)
     ctx.rule("R7", "every stage owns its overlay: a mapping stored into a spec's `env` inside a loop over stages is created in that iteration", floor=1)
@@ -368,11 +369,80 @@ def check(ctx):
 
     _memo_escape(ctx, meths)
     _lookup_purity(ctx, mod, meths)
+    _restore_never_unsets(ctx, mod, meths)
     _overlay_index_safety(ctx, sp)
     _overlay_ownership(ctx, sp)
 
 
 _SELF_MUTATORS = {"add", "update", "discard", "remove", "append", "pop", "clear", "extend", "insert", "setdefault", "popitem", "__setitem__", "__delitem__"}
+
+
+
+def _restore_never_unsets(ctx, mod, meths):
+    """Env.swap: `old[k] = <captured>` ... finally: `if v is <marker>: _del_item(k)` else `_set_item(k, v)`."""
+    sw = meths.get("swap")
+    if sw is None:
+        raise AnchorMissing(f"{EN}:Env.swap")
+    swf = flat(ctx, sw, 2, skip=("_set_item", "_del_item", "_capture_for_swap"))
+    st = f"{EN}:Env.swap"
+    # the marker: what the restore loop tests before it deletes
+    marker = None
+    restore_ifs = []
+
+    def _deletes(body):
+        return any((call_name(c) or "").endswith(("_del_item", "del_locally")) for b_ in body for c in calls_in(b_))
+
+    for n in walk_local(swf):
+        if isinstance(n, ast.If) and isinstance(n.test, ast.Compare) and len(n.test.ops) == 1 and isinstance(n.test.ops[0], (ast.Is, ast.Eq, ast.IsNot, ast.NotEq)):
+            pos = isinstance(n.test.ops[0], (ast.Is, ast.Eq))
+            del_arm, set_arm = (n.body, n.orelse) if pos else (n.orelse, n.body)
+            if _deletes(del_arm) and not _deletes(set_arm):
+                marker = unparse(n.test.comparators[0])
+                restore_ifs.append((n, set_arm))
+    if marker is None:
+        raise AnalysisError(f"{st}: the restore loop's delete branch (`if v is <marker>: _del_item`) was not found")
+    # producers of the marker: returns of the capture helper(s) called for `old[k] = ...`, or direct stores in swap
+    producers = []
+    for n in walk_local(sw):
+        if isinstance(n, ast.Assign) and any(isinstance(t, ast.Subscript) for t in n.targets):
+            v = n.value
+            if unparse(v) == marker:
+                producers.append((sw, n, "Env.swap"))
+            elif isinstance(v, ast.Call) and isinstance(v.func, ast.Attribute) and unparse(v.func.value) == "self" and v.func.attr in meths:
+                h = meths[v.func.attr]
+                for r in walk_local(h):
+                    if isinstance(r, ast.Return) and r.value is not None and unparse(r.value) == marker:
+                        producers.append((h, r, f"Env.{v.func.attr}"))
+    seen = set()
+    n_ok = 0
+    for fn, stmt, q in producers:
+        if id(stmt) in seen:
+            continue
+        seen.add(id(stmt))
+        keyp = None
+        # evidence of absence: inside `except KeyError` of a try whose body looks the key up in the whole
+        # environment (`self[key]`), or where `key in self` is known false
+        ev = False
+        for a in ancestors(stmt):
+            if isinstance(a, ast.ExceptHandler) and a.type is not None and "KeyError" in unparse(a.type):
+                tr = parent(a)
+                if isinstance(tr, ast.Try) and any(isinstance(x, ast.Subscript) and unparse(x.value) == "self" for b_ in tr.body for x in ast.walk(b_)):
+                    ev = True
+        if not ev:
+            cfg = CFG(fn)
+            nodes = cfg.nodes_of(stmt)
+            facts = nfacts(cfg, nodes[0]) if nodes else set()
+            ev = any(t.endswith(" in self") and not pol for t, pol in facts)
+        n_ok += 1
+        ctx.ob("R10", f"{EN}:{q}", f"`{short(stmt, 50)}` (the 'was absent' marker, which makes the restore step delete the variable) is produced only where a lookup in the whole environment failed", ev, key=f"{q}|absent-marker-without-evidence", where=loc(stmt))
+    if not producers:
+        raise AnalysisError(f"{st}: nothing produces the restore marker {marker}")
+    # and the set branch writes back the captured value itself
+    for n, set_arm in restore_ifs:
+        sets = [c for b_ in set_arm for c in calls_in(b_) if (call_name(c) or "").endswith("_set_item")]
+        var = unparse(n.test.left)
+        ok = bool(sets) and all(len(c.args) >= 2 and unparse(c.args[1]) == var for c in sets)
+        ctx.ob("R10", st, "a key that existed before is restored to exactly the captured value", ok, key="swap|restore-not-captured-value", where=loc(n))
 
 
 def _lookup_purity(ctx, mod, meths):
